@@ -184,6 +184,13 @@ def socks_oracle_good(data_expected, tail, r):
         bad.append('trailing data %r handed on as %r' % (tail, r['resid']))
     if ('close',) in r['out']:
         bad.append('connection closed for a well-formed request')
+    # RFC 1928: the success reply is VER REP RSV ATYP BND.ADDR BND.PORT, its length fixed by ATYP
+    for e in r['out']:
+        if e[0] == 'w' and len(e[1]) >= 4 and e[1][:3] == b'\x05\x00\x00':
+            want = {1: 10, 4: 22}.get(e[1][3], (5 + e[1][4] + 2) if e[1][3] == 3 and len(e[1]) > 4 else None)
+            if want != len(e[1]):
+                bad.append('SOCKS5 reply with address type %d is %d bytes long, a client reads %r'
+                           % (e[1][3], len(e[1]), want))
     return bad
 
 
@@ -416,6 +423,10 @@ def _workdir(ctx_work):
 
 
 def run_e2e_once(sc, workdir):
+    if 'multi_remote' in sc:
+        return _loop_run(E.multi_remote_scenario(sc)), {}
+    if 'socks_strict' in sc:
+        return _loop_run(E.socks_strict_scenario(sc)), {}
     if 'dynports' in sc:
         return _loop_run(E.dynports_scenario(sc)), {}
     if 'race' in sc:
@@ -429,6 +440,10 @@ E2E_KIND = {'crossed': 'crossed_eof_leak'}
 
 
 def classify(sc, bad):
+    if 'multi_remote' in sc:
+        return 'remote_listener_mixup'
+    if 'socks_strict' in sc:
+        return 'socks5_reply_length'
     if 'dynports' in sc:
         return 'dynamic_port_listener_left'
     if sc.get('template') == 'socks_partial':
@@ -508,12 +523,19 @@ def _stage_e2e(ctx):
                                  'local_port_any'], 'end': end})
     for _ in range(3 if quick else 40):
         dyn.append({'dynports': [rng.choice(DYN_APIS) for _ in range(rng.randint(2, 6))], 'end': rng.choice(['close', 'abort', 'cut'])})
+    for combo in (['fixed', 'dyn'], ['dyn', 'fixed'], ['dyn', 'dyn'], ['fixed', 'fixed'], ['fixed', 'dyn', 'fixed'],
+                  ['dyn', 'fixed', 'dyn'], ['fixed', 'fixed', 'dyn']):
+        dyn.append({'multi_remote': combo})
+    for kind in ('v4', 'v6', 'name'):
+        for n in ((5000,) if quick else (1, 11, 12, 13, 5000, 200000)):
+            dyn.append({'socks_strict': kind, 'n': n})
     nonrepro = 0
     tcount = {}
     relayed = 0
     failed_by = {}
     for sc in scs + races + dyn:
-        name = sc.get('template') or ('race_' + sc['race'] if 'race' in sc else 'dynports')
+        name = sc.get('template') or ('race_' + sc['race'] if 'race' in sc else 'multi_remote' if 'multi_remote' in sc
+                                      else 'socks_strict' if 'socks_strict' in sc else 'dynports')
         if failed_by.get(name, 0) >= 2 or sum(failed_by.values()) >= 4:
             # circuit breaker: each reproduced failure costs backstop time; two per template, four in all are enough
             ctx.count('e2e_skipped_after_failures')
